@@ -148,7 +148,7 @@ def node_and_service(F, R):
         R.missing('Drop for SharedNodeState')
     else:
         d = ds[0]
-        bodies = [d] + F.closures_of(d)
+        bodies = lib.family(F, d)
         rn = sum((b.calls(r'node::remove_node$|::remove_node$') for b in bodies), [])
         R.ob('MUST-CALL', 'MUST-CALL::%s::remove_node' % fnkey(d), bool(rn), 'dropping the last node handle removes the node\'s resources', rn[0].where if rn else d.file, d)
     ds = F.find_fns(r'^<iceoryx2::service::ServiceState<.*> as core::ops::drop::Drop>::drop$')
@@ -156,7 +156,7 @@ def node_and_service(F, R):
         R.missing('Drop for ServiceState')
     else:
         d = ds[0]
-        bodies = [d] + F.closures_of(d)
+        bodies = lib.family(F, d)
         dereg = sum((b.calls(r'DynamicConfig::deregister_node_id$') for b in bodies), [])
         rm = d.calls(r'RegisteredServices::remove$')
         R.ob('MUST-CALL', 'MUST-CALL::%s::deregister_node_id' % fnkey(d), bool(dereg) and len(rm) == 1 and d.exists_path(None, d.ret_sites(), rm, from_entry=True) is None, 'ServiceState::drop goes through registered_services().remove(.. deregister ..) on every path', rm[0].where if rm else d.file, d)
@@ -318,7 +318,7 @@ def service_tag_removed_with_last_handle(F, R):
     ds = F.find_fns(r'^<iceoryx2::service::ServiceState<.*> as core::ops::drop::Drop>::drop$')
     n = 0
     for d in ds:
-        for c in [d] + F.closures_of(d):
+        for c in lib.family(F, d):
             dereg = c.calls(r'DynamicConfig::deregister_node_id$')
             tag = c.calls(r'stale_resource_cleanup::remove_service_tag$|::remove_service_tag$')
             if not dereg:
